@@ -998,8 +998,8 @@ func (c *fctx) call(x *ast.CallExpr) ex {
 		}
 		return r
 	}
-	// errors made by any other call: opaque non-nil error value labelled by source text
-	if isError(c.typeOf(x)) && !c.trace {
+	// errors made by any other call: opaque non-nil error value labelled by source text (also in traced functions)
+	if isError(c.typeOf(x)) {
 		if tup, ok := c.typeOf(x).(*types.Tuple); !ok || tup.Len() == 1 {
 			switch c.show(x.Fun) {
 			case "fmt.Errorf", "errors.New", "errors.Error", "newNotPositiveError", "newNegativeError", "newMustBeUniqueError":
